@@ -355,11 +355,22 @@ def r3_early_returns(ck, P):
                         y_ = f.v(f.strip_casts(o_)) if o_[0] == 'v' else None
                         if y_ is None or y_.op != 'call' or y_.callee != 'memcmp' or len(y_.a) < 3:
                             continue
-                        esz = None
+                        esz = None; whole = None
                         for a_ in y_.a[:2]:
                             q_ = f.strip_casts(a_)
                             if q_[0] == 'a':
-                                esz = {'i8*': 1, 'i16*': 2, 'i32*': 4, 'i64*': 8, 'float*': 4, 'double*': 8}.get(f.params[q_[1]][1])
+                                ty_ = f.params[q_[1]][1]
+                                esz = {'i8*': 1, 'i16*': 2, 'i32*': 4, 'i64*': 8, 'float*': 4, 'double*': 8}.get(ty_)
+                                if ty_.startswith('%struct.') and ty_.endswith('*'):
+                                    try:
+                                        whole = P.struct(ty_[len('%struct.'):-1].split('.')[0])['size']
+                                    except Exception:
+                                        whole = None
+                        if whole is not None:
+                            # a structure compared for equality is compared as a whole
+                            if y_.a[2][0] == 'c' and int(y_.a[2][1]) < whole:
+                                partial = y_
+                            continue
                         if not esz or esz == 1:
                             continue
                         l_ = f.v(f.strip_casts(y_.a[2])) if y_.a[2][0] == 'v' else None
